@@ -5,6 +5,10 @@ from bidict import bidict, ValueDuplicationError
 
 default_logger = logging.getLogger('socketio')
 
+# key of the ack id counter inside each client's callback table; it is not a
+# value that an acknowledgement id received from the network can be equal to
+_ack_counter = object()
+
 
 class BaseManager:
     def __init__(self):
@@ -142,8 +146,8 @@ class BaseManager:
     def _generate_ack_id(self, sid, callback):
         """Generate a unique identifier for an ACK packet."""
         if sid not in self.callbacks:
-            self.callbacks[sid] = {0: itertools.count(1)}
-        id = next(self.callbacks[sid][0])
+            self.callbacks[sid] = {_ack_counter: itertools.count(1)}
+        id = next(self.callbacks[sid][_ack_counter])
         self.callbacks[sid][id] = callback
         return id
 
